@@ -150,4 +150,4 @@ PINNED = [
     ("derivative", {"terms": [["a", "b"]], "icpt": False, "ordering": "degree", "wrt": ["a", "a"],
                     "data": {v: [1.0, 2.0, -1.0, 0.0, 3.0, 2.0] for v in V}}),
 ]
-SUBS = {"derivative": Sub(judge=judge, gen=gen_case, quick=1500, thorough=150_000, min_decided=300)}
+SUBS = {"derivative": Sub(judge=judge, gen=gen_case, quick=4000, thorough=150_000, min_decided=300)}
